@@ -45,6 +45,37 @@ static EPOCH: AtomicU64     = AtomicU64::new(0);      // run seed; per-thread PR
 static POINTS: AtomicU64    = AtomicU64::new(0);      // delayable points seen in this run
 static TARGET_HITS: AtomicU64 = AtomicU64::new(0);
 pub static DELAYS: AtomicU64 = AtomicU64::new(0);     // total delays injected by this process
+/// Spurious wake-ups: with this probability (parts per million) a condition-variable wait of the crate returns at once without a
+/// notification, and a `thread::park()` of the crate finds an unpark token waiting. Both are allowed by std's contracts (every
+/// caller has to re-check its predicate) and practically never happen by themselves on Linux.
+static SPURIOUS_PPM: AtomicU64 = AtomicU64::new(0);
+pub static SPURIOUS_WAITS: AtomicU64 = AtomicU64::new(0);
+pub static SPURIOUS_PARKS: AtomicU64 = AtomicU64::new(0);
+
+fn tl_random() -> Option<u64> {
+    let epoch = EPOCH.load(Relaxed);
+    TL_RNG.try_with(|c| {
+        let (e, mut st) = c.get();
+        if e != epoch || st == 0 { st = mix(epoch ^ (c as *const _ as u64)) | 1; }
+        st = st.wrapping_add(0x9E3779B97F4A7C15);
+        c.set((epoch, st));
+        mix(st)
+    }).ok()
+}
+
+fn spurious_now() -> bool {
+    let ppm = SPURIOUS_PPM.load(Relaxed);
+    if ppm == 0 || MODE.load(Relaxed) < 2 { return false; }
+    if TL_EXEMPT.try_with(|e| e.get()).unwrap_or(true) { return false; }
+    match tl_random() { Some(r) => (r >> 7) % 1_000_000 < ppm, None => false }
+}
+
+#[cfg(feature = "hooks")]
+fn spurious_wait_hook(_loc: &'static std::panic::Location<'static>) -> bool {
+    let yes = spurious_now();
+    if yes { SPURIOUS_WAITS.fetch_add(1, Relaxed); }
+    yes
+}
 
 const SLOTS: usize = 4096;
 struct Slot { key: AtomicU64, loc: AtomicUsize, hits: AtomicU64, delays: AtomicU64 }
@@ -118,6 +149,8 @@ fn hook(kind: desync::verif::PointKind, loc: &'static std::panic::Location<'stat
     let kind = kind as u8;
     if kind == 13 { crate::run::on_spawn_event(); }
     if kind == 14 { crate::run::on_exit_event(); }
+    // before_park: leave an unpark token for the calling thread, so that the park returns although nobody woke it
+    if kind == 9 && spurious_now() { SPURIOUS_PARKS.fetch_add(1, Relaxed); std::thread::current().unpark(); }
     point_core(kind, loc);
 }
 
@@ -178,7 +211,7 @@ fn point_core(kind: u8, loc: &'static std::panic::Location<'static>) {
 
 pub fn install() {
     #[cfg(feature = "hooks")]
-    desync::verif::set_hook(Some(hook));
+    { desync::verif::set_hook(Some(hook)); desync::verif::set_spurious_wait_hook(Some(spurious_wait_hook)); }
 }
 
 /// Number of delayable points seen since the plan was set (used to size one-big plans)
@@ -189,6 +222,8 @@ pub fn set_plan(plan: Plan, run_seed: u64) {
     EPOCH.store(run_seed, Relaxed);
     POINTS.store(0, Relaxed);
     TARGET_HITS.store(0, Relaxed);
+    // a third of the runs that inject delays also inject spurious wake-ups (15 % of the waits and parks)
+    SPURIOUS_PPM.store(if !matches!(plan, Plan::Off | Plan::None) && mix(run_seed ^ 0x5b5b_1dea) % 3 == 0 && std::env::var_os("DH_NO_SPURIOUS").is_none() { 150_000 } else { 0 }, Relaxed);
     match plan {
         Plan::Off => {}
         Plan::None => MODE.store(1, Relaxed),
